@@ -23,7 +23,7 @@ for line in open(os.path.join(ROOT, "known_findings.jsonl")):
 if collapsed:
     out.append("| K-B6 … K-B%d | known | C10  | - | %%d further instances of the same kind (the planner misses a shorter plan), each identified by its exact (modes, list, input) and found by the thorough sweep; every witness stream was confirmed to decode to the input with the crate's own decoder (tools/mk_c10_known.py); listed one per line in known_findings.jsonl |" % maxkb % collapsed)
 out.append("\n### 0.4 Seeded mutations (from seeded/*/meta.json) and the checks that report them\n")
-out.append("Each mutation was produced by a fresh sub-agent that saw only the property text and a scratch worktree; it compiles, passes the 167 tests, and its demonstration fails with it and passes without it (confirmed by tools/seed.py in a scratch worktree). `detected by` lists the quick checks that exit 1 with the mutation applied to /repo. Round 1 (suffix -1, -2) and round 2 (-3, -4; the agents were told what round 1 had changed and asked for a different site or mechanism). In round 2 five of the first 22 mutations passed the quick check of their property (C05-3, C05-4, C10-4, C16-3, C16-4: a Reed-Solomon error location exactly one position in front of the block, stray pixels after a complete symbol, a planner look-ahead threshold that matters for exactly seven digits, a Macro envelope nested in a Macro envelope, a Macro body that itself ends in RS EOT). None of them needed a new model or oracle - the inputs were missing. The generators were extended (words whose syndromes are those of errors at locations outside the shortened block; nested envelopes; pixel arrays around valid symbols with stray / missing pixels and wrong widths, gen c05p; messages made of runs of one character class with every digit-run length 1..10; every documented entry point - DataMatrix::encode, encode_gs1, DataMatrixBuilder::encode, data::encode_data, data::encodation_plan, the SymbolList API - compared with the builder path that the sweeps use, after an llvm-cov run of all quick generators showed these wrappers were never executed) and all five are now reported; their meta.json keeps the history.\n")
+out.append("Each mutation was produced by a fresh sub-agent that saw only the property text and a scratch worktree; it compiles, passes the 167 tests, and its demonstration fails with it and passes without it (confirmed by tools/seed.py in a scratch worktree). `detected by` lists the quick checks that exit 1 with the mutation applied to /repo. Round 1 (suffix -1, -2) and round 2 (-3, -4; the agents were told what round 1 had changed and asked for a different site or mechanism). In round 2 six of the 38 mutations passed the quick check of their property when first tried (C05-3, C05-4, C06-3, C10-4, C16-3, C16-4: a Reed-Solomon error location exactly one position in front of the block; stray pixels after a complete symbol; a shortcut in the RS encoder's division that needs two non-zero data codewords followed by a zero - the F2-basis vectors of the C06 sweep can never trigger it, because for a single non-zero codeword the remainder's leading coefficient is a Gaussian binomial in 2 and never vanishes; a planner look-ahead threshold that matters for exactly seven digits; a Macro envelope nested in a Macro envelope; a Macro body that itself ends in RS EOT), and three more would have (C08-4 a clock track with inverted phase, C12-3 the builder's own default list, C17-4 bitmaps with more than 32767 vertices) had the generators not been extended after reading the report and before the confirmation run. None of them needed a new model, theorem or oracle - the inputs were missing, including for properties at level proof, whose theorems are about hand-written models and reach the code only through the correspondence. The generators were extended (words whose syndromes are those of errors at locations outside the shortened block; nested envelopes; pixel arrays around valid symbols with stray / missing pixels and wrong widths, gen c05p; whole finder / clock / alignment lines inverted, rotated, filled; data vectors crafted by an independent simulation of the division so that the remainder's leading coefficient vanishes before a zero codeword, sparse vectors; messages made of runs of one character class with every digit-run length 1..10; bitmaps up to 4200 modules wide; every documented entry point - DataMatrix::encode, encode_gs1, DataMatrixBuilder::encode with and without each option, data::encode_data, data::encodation_plan, the SymbolList API - compared with the builder path that the sweeps use, after an llvm-cov run of all quick generators showed that these wrappers were never executed while line coverage of the reachable code was otherwise complete) and all of them are now reported; their meta.json keeps the history.\n")
 out.append("| seeded | what was changed | needs | detected by (quick tier) |\n|---|---|---|---|")
 for d in sorted(glob.glob(os.path.join(ROOT, "seeded", "*"))):
     mp = os.path.join(d, "meta.json")
